@@ -31,7 +31,7 @@ SpecLoops(P) ==
 \* a polygon with more than 12 loops keeps a cumulative edge table; a zero-vertex loop (which the
 \* lossless decoder accepts) in the middle gives that table two equal consecutive entries
 ManyLoops(sp) == LET n == sp \div 100  z == sp % 100
-                 IN  [j \in 1..n |-> GenLoop(IF j = z THEN 0 ELSE 3, n, j)]
+                 IN  [j \in 1..n |-> IF j = z THEN MkLoop(<<>>, FALSE, 0) ELSE GenLoop(3, n, j)]
 ManyList == SetToSortSeq(ManySpecs, <)
 
 \* the special loops: one vertex, (0,0,1) = centre of face 2 for the empty loop, (0,0,-1) = centre of
